@@ -783,6 +783,16 @@ func ens_mrRead_payload(r *messageReader, b []byte, ret0 int) bool {
 	return prim_forall(ret0, func(i int) bool { return b[i] == ghost_rd_at(c.br, at+i)^c.readMaskKey[(p0+i)&3] })
 }
 
+// what a loop that reads until an error (ioutil.ReadAll in ReadMessage) can rely on between two successful reads:
+// the reader is still the connection's current message reader
+//@ ensures (*messageReader).Read C14.read.again
+func ens_mrRead_again(r *messageReader, ret1 error) bool {
+	return ret1 != nil || req_mrRead(r) && r.c.messageReader == r && r.c.readErr == nil
+}
+
+//@ iterate (*messageReader).Read
+func iter_mrRead(r *messageReader) bool { return r.c != nil && r.c.messageReader == r && r.c.readErr == nil }
+
 //@ invariant (*messageReader).Read 0
 func inv_mrRead0(r *messageReader, c *Conn) bool {
 	return c != nil && r.c == c && (c.readErr != nil || spec_wfReader(c)) && oldspec_current(r) && c.messageReader == r &&
@@ -828,6 +838,23 @@ func ens_NextReader_outcome(c *Conn, messageType int, r io.Reader, err error) bo
 	}
 	return (messageType == TextMessage || messageType == BinaryMessage) && (r != nil || c.readDecompress) && c.messageReader != nil && c.readErr == nil
 }
+
+// without decompression the reader handed out is the connection's message reader itself
+//@ ensures (*Conn).NextReader C14.nextreader.reader
+func ens_NextReader_reader(c *Conn, r io.Reader, err error) bool {
+	if err != nil {
+		return true
+	}
+	if c.readDecompress {
+		return c.newDecompressionReader != nil // (a frame is only ever marked compressed when a decompressor was negotiated)
+	}
+	mr, ok := r.(*messageReader)
+	return ok && mr != nil && mr == c.messageReader && mr.c == c
+}
+
+// a message reader that was handed out can be read
+//@ ensures (*Conn).NextReader C14.nextreader.ready
+func ens_NextReader_ready(c *Conn, err error) bool { return err != nil || spec_wfReader(c) }
 
 //@ decreases (*Conn).NextReader 0
 func dec_NextReader0(c *Conn) int {
@@ -908,3 +935,35 @@ func req_newConnBRW(conn net.Conn, brw *bufio.ReadWriter, readBufferSize, writeB
 func ens_newConnBRW(ret0 *Conn) bool {
 	return ret0 != nil && ret0.br != nil && ghost_rd_bufsize(ret0.br) >= maxControlFramePayloadSize
 }
+
+// ---------- C14: ReadMessage delivers whole messages only ----------
+// (no per-message compression negotiated) A message is returned with a nil error only when its final frame has been
+// consumed to the last byte: never the first fragment alone, never a message cut by the end of the stream.
+//@ assume-pure-handlers (*Conn).ReadMessage
+//@ requires (*Conn).ReadMessage
+func req_ReadMessage(c *Conn) bool { return req_NextReader(c) && c.newDecompressionReader == nil && !c.readDecompress }
+
+//@ ensures (*Conn).ReadMessage C14.readmessage.whole
+func ens_ReadMessage_whole(c *Conn, messageType int, err error) bool {
+	if err != nil {
+		return true
+	}
+	return (messageType == TextMessage || messageType == BinaryMessage) && c.readFinal && c.readRemaining == 0
+}
+
+//@ assigns (*Conn).ReadMessage c.reader, c.messageReader, c.readErr, c.readErrCount, c.readRemaining, c.readFinal, c.readLength, c.readDecompress, c.readMaskPos, c.readMaskKey, c.writeErr, c.writeErrMu, ghost.rd(c.br), ghost.ioerr, ghost.lock(c.mu), ghost.wr(c.conn)
+
+// ---------- C14/C15: the default ping handler ----------
+// A ping is answered with a pong carrying the same payload, sent as a control frame: through WriteControl, i.e. under
+// the write lock and without touching the data writer's state (its open message writer, its buffer, its isWriting flag),
+// because the handler runs in the reading goroutine.
+//@ requires (*Conn).SetPingHandler$1
+func req_defaultPing(c *Conn) bool { return c != nil && spec_wfWriterLock(c) }
+
+//@ at-call (*Conn).SetPingHandler$1 WriteControl C14.ping.pong-same-payload C15.ping.pong-is-control
+func at_defaultPing(message string, arg_messageType int, arg_data []byte) bool {
+	return arg_messageType == PongMessage && len(arg_data) == len(message) &&
+		prim_forall(len(message), func(i int) bool { return arg_data[i] == message[i] })
+}
+
+//@ assigns (*Conn).SetPingHandler$1 c.writeErr, c.writeErrMu, ghost.lock(c.mu), ghost.wr(c.conn), ghost.ioerr
